@@ -9,8 +9,13 @@ Abstract state (must information only):
     local name -> (attr, version)      the local is the very object held in self.attr at that version
     attr -> version                    bumped whenever self.attr is *rebound* (self.attr = ...); in-place updates
                                        (self.attr[i] = ..., self.attr += ..) do not bump the version
+    attr -> element version            bumped whenever an element of the container held in self.attr is *rebound*
+                                       (self.attr[i] = ...); updating an element in place (copyto(self.attr[i], ..)) does not
+A shallow copy (`list(self.z)`, `tuple(self.z)`, `self.z[:]`) is a new container holding the *same element objects*: its i-th element is
+self.z[i] for as long as self.z[i] has not been rebound.  Such a copy is a snapshot only if the elements are later replaced, not if they
+are overwritten in place.
 Joins keep only facts that agree on both branches; loop bodies are analysed after killing everything the body
-assigns.  A view / copy / call result is never an alias (copy() / list() / arithmetic give fresh objects).
+assigns.  A deep copy / arithmetic result is never an alias.
 """
 import ast
 
@@ -20,31 +25,58 @@ from .model import is_self_attr, unparse
 class ZeroDiff:
     def __init__(self, func):
         self.f = func
-        self.env = {}     # local -> (attr, version)
+        self.env = {}     # local -> (attr, version) | (attr, version, element version) for a shallow copy
         self.ver = {}     # attr -> version
+        self.ever = {}    # attr -> element version
         self.bound_at = {}  # local -> Assign node
         self.found = []   # (BinOp node, text, attr, bind node)
 
     # ---------------------------------------------------------------- resolution
     def obj(self, e):
-        """(attr, version, index-text) when e denotes the object in self.attr (or a fixed element of it)"""
+        """(attr, version, index-text, element version or None) when e denotes the object in self.attr or a fixed element of it;
+        element version None = read through the container itself (always its current element)"""
         if is_self_attr(e):
-            return (e.attr, self.ver.get(e.attr, 0), "")
+            return (e.attr, self.ver.get(e.attr, 0), "", None)
         if isinstance(e, ast.Name) and e.id in self.env:
-            a, v = self.env[e.id]
-            return (a, v, "")
+            v = self.env[e.id]
+            if len(v) == 2:
+                return (v[0], v[1], "", None)
+            return None  # a shallow copy is a different container object
         if isinstance(e, ast.Subscript) and not isinstance(e.slice, ast.Slice):
             if isinstance(e.slice, (ast.Name, ast.Constant)):
+                if isinstance(e.value, ast.Name) and e.value.id in self.env and len(self.env[e.value.id]) == 3:
+                    a, v, ev = self.env[e.value.id]
+                    return (a, v, "[" + unparse(e.slice) + "]", ev)
                 b = self.obj(e.value)
                 if b is not None:
-                    return (b[0], b[1], b[2] + "[" + unparse(e.slice) + "]")
+                    return (b[0], b[1], b[2] + "[" + unparse(e.slice) + "]", b[3])
         return None
+
+    def shallow_copy_of(self, e):
+        """list(self.z) / tuple(self.z) / self.z[:] (or of a plain alias of it) -> (attr, version, element version)"""
+        inner = None
+        if isinstance(e, ast.Call) and isinstance(e.func, ast.Name) and e.func.id in ("list", "tuple") and len(e.args) == 1 and not e.keywords:
+            inner = e.args[0]
+        elif isinstance(e, ast.Subscript) and isinstance(e.slice, ast.Slice) and e.slice.lower is None and e.slice.upper is None and e.slice.step is None:
+            inner = e.value
+        if inner is None:
+            return None
+        o = self.obj(inner)
+        if o is None or o[2] != "" or o[3] is not None:
+            return None
+        return (o[0], o[1], self.ever.get(o[0], 0))
+
+    def same(self, l, r):
+        if l is None or r is None or l[:3] != r[:3] or l[1] != self.ver.get(l[0], 0):
+            return False
+        cur = self.ever.get(l[0], 0)
+        return all(x is None or x == cur for x in (l[3], r[3])) and (l[2] != "" or (l[3] is None and r[3] is None))
 
     def scan(self, e):
         for n in ast.walk(e):
             if isinstance(n, ast.BinOp) and isinstance(n.op, ast.Sub):
                 l, r = self.obj(n.left), self.obj(n.right)
-                if l is not None and l == r and l[1] == self.ver.get(l[0], 0):
+                if self.same(l, r):
                     names = [x.id for x in (n.left, n.right) for x in ast.walk(x) if isinstance(x, ast.Name) and x.id in self.env]
                     bind = self.bound_at.get(names[0]) if names else None
                     self.found.append((n, unparse(n), l[0], bind))
@@ -66,6 +98,8 @@ class ZeroDiff:
                             self.env.pop(x.id, None)
                     if is_self_attr(t):
                         self.ver[t.attr] = self.ver.get(t.attr, 0) + 1
+                    if isinstance(t, ast.Subscript) and is_self_attr(t.value):
+                        self.ever[t.value.attr] = self.ever.get(t.value.attr, 0) + 1
 
     def block(self, stmts):
         for s in stmts:
@@ -77,34 +111,45 @@ class ZeroDiff:
             for t in s.targets:
                 if isinstance(t, ast.Name):
                     o = self.obj(s.value)
-                    if o is not None and o[2] == "":
+                    sc = self.shallow_copy_of(s.value)
+                    if o is not None and o[2] == "" and o[3] is None:
                         self.env[t.id] = (o[0], o[1])
+                        self.bound_at[t.id] = s
+                    elif sc is not None:
+                        self.env[t.id] = sc
                         self.bound_at[t.id] = s
                     else:
                         self.env.pop(t.id, None)
                 elif is_self_attr(t):
                     self.ver[t.attr] = self.ver.get(t.attr, 0) + 1
+                elif isinstance(t, ast.Subscript) and is_self_attr(t.value):
+                    self.ever[t.value.attr] = self.ever.get(t.value.attr, 0) + 1   # element rebound
                 elif isinstance(t, (ast.Tuple, ast.List)):
                     self.kill_assigned([s])
                 # subscript stores are in-place updates: no version change
         elif isinstance(s, ast.AugAssign):
             self.scan(s.value)
+            if isinstance(s.target, ast.Subscript) and is_self_attr(s.target.value):
+                self.ever[s.target.value.attr] = self.ever.get(s.target.value.attr, 0) + 1  # may rebind an immutable element
             # in place for arrays; for a local bound to a python scalar it rebinds, but such a local is never in env
         elif isinstance(s, (ast.Expr, ast.Return)):
             if s.value is not None:
                 self.scan(s.value)
         elif isinstance(s, ast.If):
             self.scan(s.test)
-            env0, ver0 = dict(self.env), dict(self.ver)
+            env0, ver0, ever0 = dict(self.env), dict(self.ver), dict(self.ever)
             self.block(s.body)
-            env1, ver1 = self.env, self.ver
-            self.env, self.ver = dict(env0), dict(ver0)
+            env1, ver1, ever1 = self.env, self.ver, self.ever
+            self.env, self.ver, self.ever = dict(env0), dict(ver0), dict(ever0)
             self.block(s.orelse)
-            env2, ver2 = self.env, self.ver
-            self.ver = {}
+            env2, ver2, ever2 = self.env, self.ver, self.ever
+            self.ver, self.ever = {}, {}
             for a in set(ver1) | set(ver2):
                 v1, v2 = ver1.get(a, 0), ver2.get(a, 0)
                 self.ver[a] = v1 if v1 == v2 else max(v1, v2) + 1
+            for a in set(ever1) | set(ever2):
+                v1, v2 = ever1.get(a, 0), ever2.get(a, 0)
+                self.ever[a] = v1 if v1 == v2 else max(v1, v2) + 1
             self.env = {k: v for k, v in env1.items() if env2.get(k) == v and self.ver.get(v[0], 0) == v[1]}
             # a local bound on one branch only, to the current version on that branch, survives only if the other branch left
             # both the local and the attribute untouched -- covered by the equality test above
